@@ -46,8 +46,14 @@ type input struct {
 	// UnauthOk is the honest router's UnauthOk field (set by onet's simulation and
 	// local test servers; documented as silencing a log message only). The model
 	// does not depend on it.
-	UnauthOk bool   `json:"unauthok,omitempty"`
-	Class    string `json:"class"`
+	UnauthOk bool `json:"unauthok,omitempty"`
+	// Resume (accept role, tls): the deviating client first completes an HONEST
+	// handshake with its own key A (and is served), keeps the TLS session in a
+	// ClientSessionCache, and then reconnects offering that session: "same" = to
+	// the same router, "restart" = to a new incarnation of the router (same key).
+	// Chain is what it presents if the listener insists on a full handshake.
+	Resume string `json:"resume,omitempty"`
+	Class  string `json:"class"`
 }
 
 // C08Msg is the application message the peers exchange.
@@ -69,6 +75,9 @@ type obs struct {
 	// HonestProof: the honest side's own certificate as seen by the deviating peer:
 	// "ok" | "bad: ..." | "" (the handshake did not get that far)
 	HonestProof string `json:"honest_side_proof,omitempty"`
+	// Resumed: the connection under observation was a TLS session resumption
+	// (tls.ConnectionState.DidResume): no certificate, no proof over the new nonce
+	Resumed bool `json:"resumed,omitempty"`
 	absCtx
 }
 
@@ -328,15 +337,45 @@ type honest struct {
 }
 
 func (w *world) newHonest(k int, unauthOk bool) (*honest, error) {
+	h := &honest{}
+	if err := h.start(w, k, unauthOk); err != nil {
+		return nil, err
+	}
+	return h, nil
+}
+
+// restart: a new incarnation of the router (new listener, new TLS state), same key.
+func (h *honest) restart(w *world, k int, unauthOk bool) error {
+	h.stop()
+	return h.start(w, k, unauthOk)
+}
+
+func (h *honest) reset() {
+	h.mu.Lock()
+	h.got = nil
+	h.mu.Unlock()
+	for {
+		select {
+		case <-h.ch:
+		default:
+			return
+		}
+	}
+}
+
+func (h *honest) start(w *world, k int, unauthOk bool) error {
 	si := w.si(k, network.NewTLSAddress("127.0.0.1:0"), true)
 	r, err := network.NewTCPRouter(si, w.suite)
 	if err != nil {
-		return nil, err
+		return err
 	}
 	si.Address = r.VerifC08Address()
 	r.Quiet = true
 	r.UnauthOk = unauthOk
-	h := &honest{r: r, si: si, done: make(chan bool), ch: make(chan bool, 64)}
+	h.mu.Lock()
+	h.r, h.si, h.done, h.ch, h.got = r, si, make(chan bool), make(chan bool, 64), nil
+	h.mu.Unlock()
+	done := h.done
 	r.Dispatcher.RegisterProcessorFunc(c08MsgType, func(env *network.Envelope) error {
 		h.mu.Lock()
 		h.got = append(h.got, env.ServerIdentity)
@@ -349,15 +388,64 @@ func (w *world) newHonest(k int, unauthOk bool) (*honest, error) {
 	})
 	go func() {
 		r.Start()
-		close(h.done)
+		close(done)
 	}()
 	for i := 0; i < 2000 && !r.Listening(); i++ {
 		time.Sleep(time.Millisecond)
 	}
 	if !r.Listening() {
-		return nil, errors.New("honest router does not listen")
+		return errors.New("honest router does not listen")
 	}
-	return h, nil
+	return nil
+}
+
+// primeSession: one honest handshake by the peer with its own key A, served,
+// with the TLS session (ticket) kept in cache.
+func (w *world) primeSession(h *honest, cache tls.ClientSessionCache, min, max uint16) error {
+	var berr error
+	cfg := &tls.Config{InsecureSkipVerify: true, ServerName: string(w.nonces["foreign"]), MinVersion: min, MaxVersion: max,
+		ClientSessionCache: cache,
+		GetClientCertificate: func(cri *tls.CertificateRequestInfo) (*tls.Certificate, error) {
+			w2 := *w
+			w2.nonces = map[string][]byte{"cur": []byte{}}
+			if len(cri.AcceptableCAs) > 0 {
+				w2.nonces["cur"] = cri.AcceptableCAs[0]
+			}
+			der, err := w2.buildCert(honestSpec(kA, 0))
+			if err != nil {
+				berr = err
+				return nil, err
+			}
+			return &tls.Certificate{Certificate: [][]byte{der}, PrivateKey: w.tls[0]}, nil
+		}}
+	c, err := tls.DialWithDialer(&net.Dialer{Timeout: handshakeDeadline}, "tcp", h.si.Address.NetworkAddress(), cfg)
+	if berr != nil {
+		return errHarness{berr.Error()}
+	}
+	if err != nil {
+		return fmt.Errorf("the honest first handshake was refused: %v", err)
+	}
+	defer c.Close()
+	closed := make(chan bool)
+	go func() {
+		// reading also takes in the session tickets TLS 1.3 sends after the handshake
+		buf := make([]byte, 4096)
+		for {
+			c.SetReadDeadline(time.Now().Add(time.Second))
+			if _, err := c.Read(buf); err != nil && !isTimeout(err) {
+				close(closed)
+				return
+			}
+		}
+	}()
+	tc := network.VerifC08WrapConn(c, w.suite)
+	tc.Send(w.si(kA, network.NewTLSAddress("127.0.0.1:1"), false))
+	tc.Send(&C08Msg{Tag: -7})
+	if st := h.waitDispatched(1, closed, serveDeadline); st != "served" {
+		return fmt.Errorf("the honest first connection was not served (%s)", st)
+	}
+	time.Sleep(50 * time.Millisecond) // let the ticket (sent right after the handshake) be read
+	return nil
 }
 
 func (h *honest) stop() {
@@ -625,8 +713,27 @@ func runAccept(in *input, w *world, h *honest) (o obs) {
 			w.nonces["stale"] = network.VerifC08MkNonce(w.suite)
 		}
 	}
+	var cache tls.ClientSessionCache
+	if in.Resume != "" {
+		cache = tls.NewLRUClientSessionCache(8)
+		if err := w.primeSession(h, cache, min, max); err != nil {
+			if isHarnessErr(err) {
+				return obs{Discard: err.Error()}
+			}
+			// the honest first connection must work on any sane tree: an observation
+			return obs{Crash: "hang: " + clip(err.Error())}
+		}
+		if in.Resume == "restart" {
+			if err := h.restart(w, kHonest, in.UnauthOk); err != nil {
+				return obs{Discard: "honest node: " + err.Error()}
+			}
+			addr = h.si.Address.NetworkAddress()
+		}
+		h.reset()
+	}
 	var buildErr error
 	cfg := &tls.Config{InsecureSkipVerify: true, ServerName: string(w.nonces["foreign"]), MinVersion: min, MaxVersion: max,
+		ClientSessionCache: cache,
 		VerifyPeerCertificate: func(raw [][]byte, _ [][]*x509.Certificate) error {
 			o.HonestProof = w.checkHonestProof(raw, w.nonces["foreign"])
 			return nil
@@ -659,6 +766,7 @@ func runAccept(in *input, w *world, h *honest) (o obs) {
 		return o
 	}
 	defer c.Close()
+	o.Resumed = c.ConnectionState().DidResume
 	// the listener's verdict arrives as an alert (rejected) or not at all (accepted)
 	closed := make(chan bool)
 	var rerr error
